@@ -397,6 +397,34 @@ func doTransform(run *emit.Run, a *addrReg, r *rand.Rand, tc tcase, tag string) 
 		nontrivial, map[string]any{"transform": tc, "powers": vs.Powers, "enough": enough})
 }
 
+// negativeShareWitness replays the witness of CompassProofs.nonneg_hypothesis_needed on the real
+// function: a negative share (impossible for bonded tokens, a staking invariant the snapshot code
+// does not check) makes another validator's power exceed 2^32.  Recorded as a correspondence case
+// and counted; not an oracle violation (no history reaches it).
+func negativeShareWitness(run *emit.Run, a *addrReg) {
+	sn := &valsettypes.Snapshot{Id: 7, TotalShares: sdkmath.NewInt(5)}
+	vals := []rval{
+		{Val: 1, Share: big.NewInt(-5), Infos: []rinfo{{Type: "evm", Ref: "c0", Addr: 11}}},
+		{Val: 2, Share: big.NewInt(10), Infos: []rinfo{{Type: "evm", Ref: "c0", Addr: 21}}},
+	}
+	for _, v := range vals {
+		sn.Validators = append(sn.Validators, valsettypes.Validator{Address: valAddr(v.Val), ShareCount: sdkmath.NewIntFromBigInt(v.Share),
+			ExternalChainInfos: []*valsettypes.ExternalChainInfo{mkExt(a, v.Infos[0])}, State: valsettypes.ValidatorState_ACTIVE})
+	}
+	vs := evmkeeper.VerifTransformSnapshotToCompass(sn, "c0")
+	enough := evmkeeper.VerifIsEnoughToReachConsensus(vs)
+	sum := new(big.Int)
+	addrs := make([]int64, len(vs.Validators))
+	for k, s := range vs.Validators {
+		addrs[k] = a.id(s)
+		sum.Add(sum, new(big.Int).SetUint64(vs.Powers[k]))
+	}
+	run.Count("hypothesis-needed", fmt.Sprintf("negative share: real powers %v sum>2^32=%v", vs.Powers, sum.Cmp(two32) > 0))
+	tb := newStab()
+	term := fmt.Sprintf("%s %s %s %s", coqVals(tb, vals), tb.id("c0"), coqEntries(addrs, vs.Powers), emit.Bool(enough))
+	run.Case("C10.CTransform "+tb.coq()+" "+term, true, map[string]any{"negative-share-witness": vs.Powers})
+}
+
 // modInverse-based family: a*2^32 = -1 (mod b), so that a*2^32/b has fractional part (b-1)/b.
 func nearIntegerPair(r *rand.Rand) (*big.Int, *big.Int) {
 	for {
@@ -1000,6 +1028,14 @@ func (h *hist) stakingSet(set map[int]stakeSpec) {
 	h.record("C10.HStaking "+emit.List(s), nil)
 }
 
+func fmtInfos(infos []rinfo) string {
+	out := make([]string, len(infos))
+	for k, i := range infos {
+		out[k] = fmt.Sprintf("{type %q ref %q addr #%d traits %q}", i.Type, i.Ref, i.Addr, i.Traits)
+	}
+	return "[" + strings.Join(out, " ") + "]"
+}
+
 func (h *hist) register(i int, infos []rinfo) bool {
 	var ext []*valsettypes.ExternalChainInfo
 	for _, in := range infos {
@@ -1009,7 +1045,7 @@ func (h *hist) register(i int, infos []rinfo) bool {
 	if err != nil {
 		h.rejected++
 	}
-	h.log = append(h.log, fmt.Sprintf("register v%d %q -> %v", i, infos, err == nil))
+	h.log = append(h.log, fmt.Sprintf("register v%d %s -> %v", i, fmtInfos(infos), err == nil))
 	h.run.Count("op", fmt.Sprintf("register ok=%v", err == nil))
 	h.record(fmt.Sprintf("C10.HRegister %s %s %s", emit.ZI(int64(i)), coqInfos(h.e.tb, infos), emit.Bool(err == nil)), nil)
 	return err == nil
@@ -1594,6 +1630,7 @@ func TestCorr(t *testing.T) {
 			}
 		}
 	}
+	negativeShareWitness(run, a)
 	quorumGapHistory(t, run, a, &next)
 	nearMissHistory(t, run, a, &next)
 	worthyBoundaryHistory(t, run, a, &next)
